@@ -895,3 +895,17 @@ func (m *Model) applyPushManifest(v *verdict, op *Op, out *Outcome) {
 		r.Tags[op.Tag] = TagDesc{Digest: dig, MediaType: op.MediaType, Size: int64(len(op.Data))}
 	}
 }
+
+// Refs parses an OCI image manifest or index (independently of ocimem) and returns the
+// digests it references: blobs (config, layers), manifests (index children) and the subject.
+// typed is false for other media types; ok is false when the bytes do not parse.
+func Refs(mediaType string, data []byte) (blobs, manifests []string, subject string, typed, ok bool) {
+	r, typed := manifestRefs(mediaType, data)
+	if !typed {
+		return nil, nil, "", false, true
+	}
+	if r.parseErr {
+		return nil, nil, "", true, false
+	}
+	return r.blobs, r.manifests, r.subject, true, true
+}
